@@ -60,6 +60,8 @@ theorem sizeIssues_wf (cs : List SizeCk) (n : Nat) : AllWf (sizeIssues cs n) := 
       | eq k =>
         simp only [SizeCk.issue]
         split <;> rfl
+      | custom b => rfl
+      | overwrite => rfl
 
 section
 variable (cfg : Cfg) (env : Env) (hm : ∀ m x, AllWf (errs env m x))
